@@ -96,6 +96,16 @@ struct WL {
         }
     }
 
+    /// releasing the handle (reset) frees the writer lock at once — not when the emptied
+    /// handle object happens to go out of scope
+    void released_now(int held0)
+    {
+        if (gsim::held_exclusive() != held0)
+            gsim::fail("release_keeps_lock", "the write handle was released (reset) and its value "
+                       "published, but the writer lock is still held while the empty handle "
+                       "object is alive");
+        for (int y = 0; y < 2; y++) gsim::yield();  // others may lock meanwhile
+    }
     void do_write(gsim::Op op)
     {
         int held0 = gsim::held_exclusive();
@@ -126,6 +136,7 @@ struct WL {
                     S->commits_started++;
                 }
                 h2.reset();
+                released_now(held0);
                 gsim::Oracle o;
                 S->commits_done++;
             } else {
@@ -135,6 +146,7 @@ struct WL {
                     S->commits_started++;
                 }
                 h.reset();
+                released_now(held0);
                 gsim::Oracle o;
                 S->commits_done++;
             }
